@@ -79,6 +79,10 @@ func readPairs(env *world.Env, dbiName string) []pair {
 
 func main() {
 	flag.Parse()
+	if v, ok := ev.ReplayRequested(); ok {
+		fmt.Printf("  this check enumerates inputs; the replay artefact names the failing input directly: %v\n", v.Replay)
+		return
+	}
 	r := ev.Start("C20")
 	defer r.RecoverMain()
 	defer world.Cleanup()
